@@ -35,6 +35,16 @@ def import_behaviour(scn, modname):
     return None
 
 
+def env_at(scn, opidx):
+    """the simulated environment in force when operation ``opidx`` runs (the
+    last 'setenv' operation before it, else the scenario's initial one)"""
+    env = dict(scn.get('env', {}))
+    for op in scn['ops'][:opidx if opidx is not None else 0]:
+        if op['op'] == 'setenv':
+            env = dict(env, environ=op.get('environ', {}), argv=op.get('argv', ['xdsim']))
+    return env
+
+
 def has_async_fault(scn, dtid, k):
     for f in scn.get('plan', []):
         if f.get('dt') == dtid and f.get('k') == k and ('trace' in f or 'trace_frac' in f or 'stream_write' in f):
@@ -54,7 +64,7 @@ def build(rec):
             continue
         dt, mod = idx[e['dtid']]
         op = scn['ops'][e['op']] if e['op'] is not None else {}
-        ctx = {'env': scn.get('env', {}), 'mode': e.get('mode')}
+        ctx = {'env': env_at(scn, e['op']), 'mode': e.get('mode')}
         defaults = dict(world.get('defaults') or {})
         cfg = op.get('config') or {}
         if cfg.get('default_runtime_state'):
